@@ -42,6 +42,8 @@ type persistCtl struct {
 	kinds []string
 	// write transactions the database layer begins inside the operation in progress
 	opGoid int64
+	opFile int   // file-level steps completed inside the operation in progress
+	fsteps []int // per operation: how many file-level steps it consisted of
 	opTx   int
 	opKind string
 	multi  []int // operations that were made of more than one write transaction
@@ -100,6 +102,21 @@ func (e *daemonEngine) fileHook(op, path string, nbytes int, trunc bool) int {
 	pc := &n.pc
 	e.rec.Count("probe:file_steps_inside_operations", 1)
 	cp := e.sc.Crash
+	if op != "write" && op != "torn" {
+		pc.opFile++ // a completed file-level step of this operation
+	}
+	if cp != nil && cp.Mode == "fstep" && cp.At == pc.count && !pc.fired && op != "write" && op != "torn" && pc.opFile == cp.TornPct {
+		// the node dies right after this step (file created / content written / old file removed / renamed)
+		pc.fired = true
+		inOp.Store(nil)
+		e.crashKind = fmt.Sprintf("after file step %d (%s) of %s", pc.opFile, op, pc.opKind)
+		e.rec.Count("fault:crash_between_file_steps", 1)
+		e.rec.Ev("fstep", n.addr, "%s %s", op, filepath.Base(path))
+		e.snapshot(n, "", 0)
+		pc.mu.Unlock()
+		e.crashNode(n)
+		select {}
+	}
 	if cp == nil || cp.Mode != "torn" || cp.At != pc.count || pc.fired {
 		return -1
 	}
@@ -180,6 +197,20 @@ func (n *dNode) persist(kind, file string, do func() error) error {
 	e.rec.Ev("persist", n.addr, "#%d %s", k, kind)
 	cp := e.sc.Crash
 	hit := cp != nil && cp.Node == n.idx && cp.At == k && !pc.fired
+	if hit && cp.Mode == "late" {
+		// a slow disk: the operation is held up for a while before it takes effect, whatever else the node
+		// does meanwhile happens first, and the node dies before the operation is performed
+		pc.fired = true
+		e.rec.Count("fault:stalled_operation", 1)
+		pc.mu.Unlock()
+		time.Sleep(300 * time.Millisecond)
+		pc.mu.Lock()
+		e.crashKind = "late " + kind
+		e.snapshot(n, "", 0)
+		pc.mu.Unlock()
+		e.crashNode(n)
+		select {}
+	}
 	if hit && cp.Mode == "before" {
 		pc.fired = true
 		e.crashKind = "before " + kind
@@ -190,7 +221,7 @@ func (n *dNode) persist(kind, file string, do func() error) error {
 	}
 	track := cp != nil && cp.Node == n.idx
 	if track {
-		pc.opGoid, pc.opTx, pc.opKind = curGoid(), 0, kind
+		pc.opGoid, pc.opTx, pc.opKind, pc.opFile = curGoid(), 0, kind, 0
 		inOp.Store(n)
 	}
 	err := do()
@@ -199,8 +230,9 @@ func (n *dNode) persist(kind, file string, do func() error) error {
 		if pc.opTx > 1 {
 			pc.multi = append(pc.multi, k)
 		}
+		pc.fsteps = append(pc.fsteps, pc.opFile)
 	}
-	if hit && cp.Mode != "mid" {
+	if hit && cp.Mode != "mid" && cp.Mode != "fstep" {
 		pc.fired = true
 		e.crashKind = cp.Mode + " " + kind
 		if cp.Mode == "torn" && file != "" {
@@ -288,14 +320,31 @@ func (e *daemonEngine) crashNode(n *dNode) {
 // key.SaveShare) a crash point falls into; other crash points keep their own name.
 func crashWindow(kind string) string {
 	switch kind {
-	case "after dkg.SaveFinished", "torn dkg.SaveFinished", "before key.SaveGroup":
+	case "after dkg.SaveFinished", "torn dkg.SaveFinished", "before key.SaveGroup", "late key.SaveGroup":
 		return "between-dkg-record-and-group-file"
 	case "torn key.SaveGroup":
 		return "group-file-torn"
-	case "after key.SaveGroup", "before key.SaveShare":
+	case "after key.SaveGroup", "before key.SaveShare", "late key.SaveShare":
 		return "between-group-file-and-share-file"
 	case "torn key.SaveShare":
 		return "share-file-torn"
+	}
+	// a crash between the file-level steps of writing one file: by what the step left behind
+	if strings.HasPrefix(kind, "after file step") {
+		file := "group-file"
+		if strings.HasSuffix(kind, "key.SaveShare") {
+			file = "share-file"
+		}
+		// with files replaced by rename, a crash before the rename leaves the state the sequence had before
+		// this file's step, a crash after it the state before the next step
+		switch {
+		case strings.Contains(kind, "(remove)"):
+			return file + "-removed-not-yet-replaced"
+		case file == "group-file" && !strings.Contains(kind, "(rename)"):
+			return "between-dkg-record-and-group-file"
+		case file == "group-file" || !strings.Contains(kind, "(rename)"):
+			return "between-group-file-and-share-file"
+		}
 	}
 	return kind
 }
@@ -348,6 +397,9 @@ func (e *daemonEngine) checkRestart(n *dNode, startErr error) {
 				switch {
 				case inNew && (g == nil || gerr != nil):
 					e.rec.Violate("C13", "files-behind-dkg-record", facts, "node %s crashed %s: the database records epoch %d as completed, but there is no group file", n.addr, e.crashKind, fin.Epoch)
+				case inNew && !bytes.Equal(g.Hash(), fin.FinalGroup.Hash()) && g.TransitionTime > fin.FinalGroup.TransitionTime:
+					e.rec.Violate("C13", "files-ahead-of-dkg-record", facts, "node %s crashed %s: the group file on disk (%s, transition %d) is newer than the epoch %d the database records as completed (%s, transition %d)", n.addr, e.crashKind,
+						hex.EncodeToString(g.Hash())[:8], g.TransitionTime, fin.Epoch, hex.EncodeToString(fin.FinalGroup.Hash())[:8], fin.FinalGroup.TransitionTime)
 				case inNew && !bytes.Equal(g.Hash(), fin.FinalGroup.Hash()):
 					e.rec.Violate("C13", "files-behind-dkg-record", facts, "node %s crashed %s: the database records epoch %d as completed (group %s), the group file on disk is another one (%s)", n.addr, e.crashKind, fin.Epoch,
 						hex.EncodeToString(fin.FinalGroup.Hash())[:8], hex.EncodeToString(g.Hash())[:8])
